@@ -5,7 +5,8 @@ set -u
 export GOFLAGS=-mod=mod GOPROXY=off GOSUMDB=off GOTOOLCHAIN=local
 P=$1; shift
 CHECKS=${@:-$P}
-WT=/tmp/seed-$P; OUT=/tmp/seed-$P-out; DST=/verif/seeded/$P
+SUF=${SEED_ROUND:-}
+WT=/tmp/seed$SUF-$P; OUT=/tmp/seed$SUF-$P-out; DST=/verif/seeded/$P${SUF:+-b}
 [ -f $OUT/patch.diff ] || { echo "no patch.diff"; exit 2; }
 mkdir -p $DST
 cp $OUT/patch.diff $DST/patch.diff
